@@ -40,6 +40,7 @@ type Solver struct {
 	timeout int // ms
 	pendingCB func(eval func([]*Term) []uint64)
 	buf     strings.Builder
+	hung    bool
 }
 
 func NewSolver(kind string, timeoutMs int) (*Solver, error) {
@@ -102,6 +103,9 @@ func (s *Solver) send(txt string) {
 		io.WriteString(s.log, txt)
 	}
 	if _, err := io.WriteString(s.in, txt); err != nil {
+		if s.hung {
+			panic(engineError{"solver did not answer within 3x its per-query limit + 20 s and was killed (reported inconclusive, never success)"})
+		}
 		panic(engineError{fmt.Sprintf("solver write: %v", err)})
 	}
 }
@@ -192,6 +196,9 @@ func (s *Solver) Assert(t *Term) {
 
 func (s *Solver) readLine() string {
 	line, err := s.out.ReadString('\n')
+	if err != nil && line == "" && s.hung {
+		panic(engineError{"solver did not answer within 3x its per-query limit + 20 s and was killed (reported inconclusive, never success)"})
+	}
 	if err != nil && line == "" {
 		panic(engineError{fmt.Sprintf("solver read: %v", err)})
 	}
@@ -297,6 +304,12 @@ func (s *Solver) checkCB(extra *Term) (SatResult, []uint64) {
 	}
 	t0 := time.Now()
 	s.send("(check-sat)\n")
+	// watchdog: a solver stuck in preprocessing ignores its own timeout
+	wd := time.AfterFunc(time.Duration(3*s.timeout)*time.Millisecond+20*time.Second, func() {
+		s.hung = true
+		s.cmd.Process.Kill()
+	})
+	defer wd.Stop()
 	res := Unknown
 	for {
 		line := strings.TrimSpace(s.readLine())
